@@ -330,6 +330,12 @@ fn model_programs() -> Vec<(String, String)> {
         "x-definitions-read-twice".to_string(),
         ".equ io_base_q = 0x20\n.equ port_q = io_base_q + 0x18\n.equ lo_q = low(port_q * 4)\n.equ io_base_q = 0x20\n.equ port_q = io_base_q + 0x18\n.equ lo_q = low(port_q * 4)\nldi r16, port_q\nldi r17, lo_q\n".to_string(),
     ));
+    // lines that are alike up to a `;` or `//` that is no comment (inside a character literal, a
+    // string) and differ behind it
+    v.push((
+        "x-lines-alike-up-to-a-semicolon-that-is-no-comment".to_string(),
+        "ldi r16, ';'\nldi r16, ';' + 1\n.db ';', 0\n.db ';', 1\ncpi r17, '/'\ncpi r17, '/' + 2\n.db \"a;b\", 1\n.db \"a;b\", 2\n.db \"a//b\", 3\n.db \"a//b\", 4\n.dw '\"' ; one\n.dw '\"' + 1 ; two\n".to_string(),
+    ));
     {
         let mut s = String::from(".device ATtiny13\n.macro two_q\nldi r16, 1\nldi r17, 2\n.endm\n.macro one_q\ninc r16\n.endm\n");
         for _ in 0..63 {
